@@ -10,6 +10,7 @@ import (
 	"os/exec"
 	"path/filepath"
 	"sort"
+	"strconv"
 	"strings"
 	"sync"
 	"syscall"
@@ -63,10 +64,14 @@ type Result struct {
 	Stderr   []byte
 	CPUms    int64
 	TimedOut bool // wall-clock watchdog fired (inconclusive by itself)
+	Blocked  bool // every thread of the process slept, without using any CPU, over consecutive samples: it waits for something that never comes
 }
 
 func (r *Result) Crashed() (bool, string) {
-	if r.Signal != "" && !r.TimedOut {
+	if r.TimedOut {
+		return false, "" // the goroutine dump in stderr was requested by the watchdog (SIGQUIT); Blocked / CPUms tell what happened
+	}
+	if r.Signal != "" {
 		return true, "signal " + r.Signal
 	}
 	for _, s := range [][]byte{r.Stderr, r.Stdout} {
@@ -138,10 +143,45 @@ func (s *Sandbox) Run(goit string, argv []string, o RunOpts) *Result {
 	done := make(chan error, 1)
 	go func() { done <- cmd.Wait() }()
 	var err error
-	select {
-	case err = <-done:
-	case <-time.After(time.Duration(wall) * time.Millisecond):
-		res.TimedOut = true
+	finished := false
+	deadline := time.Now().Add(time.Duration(wall) * time.Millisecond)
+	// A goit process has nothing to wait for (no network, no timers, no children, stdin closed). After a grace period its
+	// threads are sampled: all asleep with no CPU used between three samples means blocked for ever -- decided on
+	// scheduler state, not on elapsed time, so a loaded machine (threads runnable, not asleep) cannot produce it.
+	grace, lastCPU, asleep := time.After(4*time.Second), int64(-1), 0
+	tick := time.NewTicker(700 * time.Millisecond)
+	defer tick.Stop()
+	started := false
+wait:
+	for {
+		select {
+		case err = <-done:
+			finished = true
+			break wait
+		case <-grace:
+			started = true
+		case <-tick.C:
+			if time.Now().After(deadline) {
+				res.TimedOut = true
+				break wait
+			}
+			if !started {
+				continue
+			}
+			if cpu, sleeping := procState(cmd.Process.Pid); sleeping && cpu == lastCPU {
+				asleep++
+			} else {
+				asleep = 0
+				lastCPU = cpu
+			}
+			if asleep >= 3 {
+				res.Blocked = true
+				res.TimedOut = true
+				break wait
+			}
+		}
+	}
+	if !finished {
 		cmd.Process.Signal(syscall.SIGQUIT)
 		select {
 		case err = <-done:
@@ -170,6 +210,35 @@ func (s *Sandbox) Run(goit string, argv []string, o RunOpts) *Result {
 		res.Exit = -2
 	}
 	return res
+}
+
+// procState sums utime+stime (clock ticks) over the threads of pid and tells whether every thread is in state S.
+func procState(pid int) (int64, bool) {
+	tasks, err := os.ReadDir(fmt.Sprintf("/proc/%d/task", pid))
+	if err != nil || len(tasks) == 0 {
+		return -1, false
+	}
+	var cpu int64
+	all := true
+	for _, t := range tasks {
+		b, err := os.ReadFile(fmt.Sprintf("/proc/%d/task/%s/stat", pid, t.Name()))
+		if err != nil {
+			return -1, false
+		}
+		// pid (comm) state ppid ... utime(14) stime(15): comm may contain blanks, cut behind the last ')'
+		i := bytes.LastIndexByte(b, ')')
+		f := strings.Fields(string(b[i+1:]))
+		if i < 0 || len(f) < 14 {
+			return -1, false
+		}
+		if f[0] != "S" {
+			all = false
+		}
+		u, _ := strconv.ParseInt(f[11], 10, 64)
+		v, _ := strconv.ParseInt(f[12], 10, 64)
+		cpu += u + v
+	}
+	return cpu, all
 }
 
 // ---------------------------------------------------------------------------------------
@@ -205,6 +274,9 @@ func (s *Sandbox) Snapshot() *Snap {
 				} else {
 					sn.Files[rel] = b
 				}
+			case fi.Mode()&os.ModeSymlink != 0:
+				t, _ := os.Readlink(p)
+				sn.Odd[rel] = "symlink -> " + t
 			default:
 				sn.Odd[rel] = fi.Mode().String()
 			}
@@ -292,6 +364,15 @@ func (s *Sandbox) Restore(sn *Snap) error {
 			return err
 		}
 	}
+	for f, what := range sn.Odd {
+		if t, ok := strings.CutPrefix(what, "symlink -> "); ok {
+			p := filepath.Join(s.Root, f)
+			os.MkdirAll(filepath.Dir(p), 0o777)
+			if err := os.Symlink(t, p); err != nil {
+				return err
+			}
+		}
+	}
 	return nil
 }
 
@@ -322,6 +403,18 @@ func Diff(a, b *Snap) []string {
 	for k := range b.Files {
 		if _, ok := a.Files[k]; !ok {
 			out = append(out, "+"+k)
+		}
+	}
+	for k, v := range a.Odd {
+		if w, ok := b.Odd[k]; !ok {
+			out = append(out, "-"+k+" ("+v+")")
+		} else if v != w {
+			out = append(out, "~"+k+" ("+v+" => "+w+")")
+		}
+	}
+	for k, v := range b.Odd {
+		if _, ok := a.Odd[k]; !ok {
+			out = append(out, "+"+k+" ("+v+")")
 		}
 	}
 	for k := range a.Dirs {
